@@ -12,11 +12,17 @@ CHECKS = {
    design_ref="DESIGN.md section 4 C23",
    note="Trusted: Kani/CBMC; the oracle in the harness (LSP spec); texts beyond 6 bytes, token-length computation in semantic_tokens.rs, request handlers and ranges assembled from parsed literals are outside the claim.",
    technique="bounded model checking (Kani/CBMC SAT) of compiled Rust against a specification oracle"),
+
+ "C33": dict(engine="S", category="other",
+   text="SMT decision (z3, cross-checked with z3 4.8.12 and cvc5) over an encoding regenerated on every run from signedsource/src/lib.rs: regex literal, tokens, replace/replacen, find, slice offsets and the un-signing expression are extracted and translated; md5 is an uninterpreted function. For every printable-ASCII text of the listed lengths (one and two token occurrences fit) the solver decides (Q1) whether a signed text can fail to verify and (Q2) whether a single-byte edit outside the signature can leave a signed file valid. Models are replayed with the real crate (real md5) before anything is reported; the translation is validated against the real crate on the repository's own test inputs plus probes on every run.",
+   design_ref="DESIGN.md section 4 C33",
+   note="Trusted: the narrow translator (fails closed on any source shape it does not recognise), z3; md5 collision resistance and absence of digest fixed points are assumptions; lengths are the listed ones; one known finding (stale signature before the token) is excluded by key and everything outside it is still decided.",
+   technique="SMT (bit-vector) encoding regenerated from source, uninterpreted hash, counterexamples replayed natively"),
 }
 
 NA_COMMON = "whole-compiler behaviour: needs IsographDatabase (#[memo] over TypeId hashing), std HashMap, file system and format!-built text, none of which Kani/CBMC can decide here (DESIGN.md section 2, probes P2/P4/P5/P8/P9)"
 NOT_APPLICABLE = {p: "not yet built in this revision (see DESIGN.md)" for p in
-  ["C01","C02","C03","C04","C05","C07","C12","C16","C24","C28","C31","C32","C33"]}
+  ["C01","C02","C03","C04","C05","C07","C12","C16","C24","C28","C31","C32"]}
 NOT_APPLICABLE.update({
  "C08": NA_COMMON,
  "C09": "observable is the JS-evaluated artifact text of a whole compile validated by a GraphQL implementation; printers are format!-based and need a real compile's merged selection map",
